@@ -258,6 +258,30 @@ Check (eq_refl : run_cycles = fix run_cycles lz_compress cap sigs time vb e cs :
   end).
 
 
+
+(* the snapshot section with signals of every type: `SNP\0`, four zero bytes, the time, one value per signal in signal order,
+   `ESN\0` - the time stamp, the values as store operations / buffer updates in signal order, the end of the step *)
+Check section_snapshot :
+  forall lz_compress cap be sigs ps t8 vb e rest f effs,
+  length t8 = 8%nat -> length ps = length sigs ->
+  snap_effs sigs 0 ps = Some effs -> snap_ok sigs 0 ps -> consistent sigs vb ->
+  sections lz_compress cap (S f) be sigs vb e (SNP ++ [0; 0; 0; 0] ++ t8 ++ concat ps ++ ESN ++ rest)
+  = do e1 <- time_change lz_compress cap e (read_int be t8);
+    match run_effs vb e1 effs with
+    | Ok (vb2, e2) => do '(vb3, e3) <- finish_time_step vb2 e2; sections lz_compress cap f be sigs vb3 e3 rest
+    | Err => Err
+    | Panic => Panic
+    end.
+Check snapshot_records :
+  forall sigs ps idx vb e rest effs,
+  snap_effs sigs idx ps = Some effs -> snap_ok sigs idx ps -> consistent sigs vb ->
+  snapshot_signals sigs (length ps) idx vb e (concat ps ++ rest)
+  = match run_effs vb e effs with
+    | Ok (vb', e') => Ok (Some (vb', e', rest))
+    | Err => Err
+    | Panic => Panic
+    end.
+
 (* a cycle section inside the sequence of sections: `CYC\0`, the 8 bytes of the first time, the cycles, `ECY\0` *)
 Check section_cycles :
   forall lz_compress cap be sigs cs t8 vb e rest f,
@@ -415,6 +439,8 @@ Print Assumptions cycle_loop_vectors.
 Print Assumptions cycle_signals_records.
 Print Assumptions cycle_loop_records.
 Print Assumptions section_cycles.
+Print Assumptions section_snapshot.
+Print Assumptions snapshot_records.
 Print Assumptions snapshot_vectors.
 Print Assumptions ve_set_spec.
 Print Assumptions time_step_spec.
